@@ -64,6 +64,8 @@ type Contract struct {
 	Lets     []Clause // `let name = expr` evaluated at entry (ghost abbreviations)
 	MayPanic bool    // `panics` clause present or `maypanic`
 	Logged   bool    // interface method whose invocations are recorded in the ghost trace (user-implementable protocol)
+	SpecPkg  string   // package whose scope resolves type names in the clauses (differs from PkgPath for external interfaces)
+	NoRefine bool     // interface contract that names results (oracle functions): implementations are not checked against it
 	Reveal   []string // opaque spec functions whose definitions are visible while this contract is being verified
 	ParamNames []string // interface method contracts: names for the (often unnamed) parameters, `func I.M(a, b)`
 	Modifies []string
@@ -121,7 +123,7 @@ type ContractSet struct {
 	Files  []string
 }
 
-var kwRe = regexp.MustCompile(`^(func|pure|axiom|lemma|requires|ensures|panics|exits|loop|decreases|inline|trusted|nopanic|let|maypanic|mayexit|modifies|use|induct|logged|reveal|noreturn|end)\b`)
+var kwRe = regexp.MustCompile(`^(func|pure|axiom|lemma|requires|ensures|panics|exits|loop|decreases|inline|trusted|nopanic|let|maypanic|mayexit|modifies|use|induct|logged|reveal|noreturn|norefine|end)\b`)
 
 type rawLine struct {
 	text string
@@ -355,6 +357,10 @@ func parseContractLines(lines []rawLine, fname, pkgPath string, cs *ContractSet)
 		case "logged":
 			if cur != nil {
 				cur.Logged = true
+			}
+		case "norefine":
+			if cur != nil {
+				cur.NoRefine = true
 			}
 		case "reveal":
 			names := strings.Fields(strings.ReplaceAll(rest, ",", " "))
